@@ -79,6 +79,11 @@ def seq_continuation(ctx, prog, rid):
             full = flow.render(of.of_local(ml[0]))
             ctx.inst(rid, rec.short, 'max_wal_seq reaches from snapshot.last_wal_seq and entry.seq_no',
                      'Snapshot.last_wal_seq' in full and 'WalEntry.seq_no' in full, 'origins: %s' % full[:400])
+            sl = rec.var_local('snapshot_last_wal_seq')
+            slo = flow.render(of.of_local(sl[0])) if len(sl) == 1 else '?'
+            ctx.inst(rid, rec.short, 'the replay skip boundary is the last_wal_seq of the snapshot actually loaded (0 without a snapshot), never a MANIFEST field',
+                     bool(re.match(r'^phi\(0 \| Snapshot::load_with_validation\(.*\)@Ok→Ok\.0\.0→Snapshot\.last_wal_seq\)$', slo)) and 'latest_snapshot_wal_seq' not in slo,
+                     'snapshot_last_wal_seq = %s' % (slo[:60] + ' … ' + slo[-60:]))
             raise_sw = edges_matching(rec, ov, r'^cmp\[\+ var:entry→WalEntry\.seq_no - var:max_wal_seq >= 1\]$')
             skip_sw = edges_matching(rec, ov, SEQ_COVERED)
             if not raise_sw or not skip_sw:
